@@ -40,6 +40,13 @@ def thresholds(tier):
 
 def cases(tier, seed):
   out = qlattice.instances(tier, seed)
+  # an upper bound the call ignores (is_quantized_clip left at / set to True; the lattice only pairs the bound with
+  # is_quantized_clip=False, where it acts): the rebuilt object has to ignore it too
+  for kw in ({"bits": 4, "integer": 2, "relu_upper_bound": 1.5},
+             {"bits": 4, "integer": 2, "relu_upper_bound": 1.5, "is_quantized_clip": True},
+             {"bits": 6, "integer": 3, "relu_upper_bound": 4, "negative_slope": 0.25},
+             {"bits": 3, "integer": 1, "relu_upper_bound": 0.5, "qnoise_factor": 0.5}):
+    out.append({"cls": "quantized_relu", "kw": kw, "how": "ignored_bound", "idx": len(out), "seed": seed})
   out.append({"cls": "__registry__", "kw": {}, "how": "registry", "idx": len(out), "seed": seed})
   return out
 
